@@ -177,7 +177,7 @@ def gen_cases(rng, tier):
             p[DATA] = [rng.randint(0, 255) for _ in range(rng.randint(0, 13))]
             add(["enc_scp", p, k], "lengths", iso=(DATA, i))
     # -- random valid packets
-    n = 3000 if tier == "quick" else 100000
+    n = 3000 if tier == "quick" else 60000
     for j in range(n):
         if j % 4 == 0:
             add(["enc_sdp", rand_packet(rng)[:11]], "valid")
@@ -538,7 +538,7 @@ def run(chk, args):
             msw = [s for s in sweeps if s[0] != "sweep16raw"]
             mcases = flat + msw
             mouts = outs + [o for s, o in zip(sweeps, souts) if s[0] != "sweep16raw"]
-            vals = chk.coq_eval(HEADER, [coq_expr(c) for c in flat], shard=500)
+            vals = chk.coq_eval(HEADER, [coq_expr(c) for c in flat], shard=250)
             vals += chk.coq_eval(HEADER, [coq_expr(c) for c in msw], shard=3, name="sweep")
             bad = 0
             for c, o, v in zip(mcases, mouts, vals):
@@ -555,9 +555,9 @@ def run(chk, args):
                            "decoding, error class; 2^16 sweeps of cmd_rc and seq by digest)" % len(mcases), True)
             # the decodings rig made of its own encodings, decoded by the model from the same bytes
             rt = [(c, o) for c, o in zip(flat, outs) if c[0] in ("enc_sdp", "enc_scp") and o[0] == "ok"]
-            rt = rt[:1500] if chk.tier == "quick" else rt[:40000]
+            rt = rt[:1500] if chk.tier == "quick" else rt[:30000]
             dcs = [["dec_sdp", o[1]] if c[0] == "enc_sdp" else ["dec_scp", o[1], c[2]] for c, o in rt]
-            vals = chk.coq_eval(HEADER, [coq_expr(d) for d in dcs], shard=500, name="rt")
+            vals = chk.coq_eval(HEADER, [coq_expr(d) for d in dcs], shard=250, name="rt")
             bad = 0
             for d, (c, o), v in zip(dcs, rt, vals):
                 chk.traces_validated += 1
